@@ -299,7 +299,7 @@ def check(run, replay):
                          "one per line, dumped by the real binary per platform; non-trivial = a distinct operator node for which cppcheck "
                          "reports a Known value and the reference semantics gives a UB-free value.")
     vlib.ensure_repo_build()
-    ok = run.prove()
+    ok = run.prove(extra_targets=["theories/VF/MiniCRun.vo"])
     if not ok:
         run.violation("proof:" + PID, "Properties_C01.vo does not build: " + str(run.proof_error())[:300],
                       {"broken": "proof", "detail": run.proof_error()}, found_input=False)
